@@ -545,6 +545,9 @@ class SReal(_SNum):
     def sqrt(self):
         return _CUR.sqrt(self)
 
+    def cbrt(self):
+        return _CUR.cbrt(self)
+
     def __float__(self):
         raise Unsupported("float() of a symbolic real (a float64 buffer needs an object-dtype shim)")
 
@@ -679,6 +682,7 @@ class Explorer:
         self.pending_rads = {}  # name -> (radical const, radicand): definition not yet given to the solver
         self.alg_defs = {}      # id of symbol -> (symbol, term its square equals): radicals and sin symbols, for nf
         self.trig = {}          # id of angle term -> (angle term, cos, sin)
+        self._cbrt = {}
         self._atan2 = {}        # (id y, id x) -> (terms, result)
         self._pi = None
         self.model = None
@@ -931,6 +935,22 @@ class Explorer:
             self.radicals[ckey] = (rs, core)
         out = rs if q == 1 else q * rs
         self.radicals[key] = (out, t)
+        return out
+
+    def cbrt(self, x):
+        """real cube root: a fresh symbol c with c^3 = x (strictly monotone, so sign and order questions reduce to x)"""
+        if not isinstance(x, _SNum) or x.v is not None:
+            v = float(x.v if isinstance(x, _SNum) else x)
+            return math.copysign(abs(v) ** (1.0 / 3.0), v)
+        t = z3.simplify(_toreal(x.t, x.is_int))
+        hit = self._cbrt.get(t.get_id())
+        if hit is not None:
+            return hit[0]
+        c = z3.Real("cbrt!%d" % len(self._cbrt))
+        self._add(c * c * c == t)
+        self.model = None
+        out = SReal(c)
+        self._cbrt[t.get_id()] = (out, t)
         return out
 
     # ---- transcendental stubs (DESIGN.md 3.3): uninterpreted symbols with a few sound axioms
